@@ -144,3 +144,35 @@ def reach_atoms(g, atom_eval: Callable[[ast.expr], Optional[bool]],
         continue
       stack.append(m)
   return seen
+
+
+def returned_under(g, atom_eval: Callable[[ast.expr], Optional[bool]],
+                   f=None) -> List[ast.expr]:
+  """Expressions the function can return when the atoms have the given truth
+  values.  A conditional expression `a if c else b` in a return (directly or,
+  with `f`, through a single-assignment local) counts as two returns, each
+  under its arm of `c`.  A bare `return` / falling off the end is reported as
+  a Constant(None)."""
+  from fdlstatic import roles  # pylint: disable=g-import-not-at-top
+  out: List[ast.expr] = []
+
+  def arms(v, depth=0):
+    if f is not None and isinstance(v, ast.Name) and depth < 3:
+      d = roles.deref(f, v, 1)
+      if isinstance(d, ast.IfExp):
+        v = d
+    if isinstance(v, ast.IfExp):
+      t = eval_atoms(v.test, atom_eval)
+      if t is not False:
+        arms(v.body, depth + 1)
+      if t is not True:
+        arms(v.orelse, depth + 1)
+    else:
+      out.append(v)
+
+  r = reach_atoms(g, atom_eval)
+  for n in sorted(r):
+    st = g.stmt[n]
+    if isinstance(st, ast.Return) and g.kind[n] == 'stmt':
+      arms(st.value if st.value is not None else ast.Constant(value=None))
+  return out
